@@ -163,7 +163,8 @@ Definition request_expected (cfg : config) (sp sp' : spec) (c sid p : N) (r : re
       | _, _ => []
       end
   | RCustom [] body ots =>
-      if (custom_max <? N.of_nat (length body)) || flag_on cfg F_CUSTOM_B then [] else to_all rest (MCustomB ots p body)
+      (* whether the size limit refuses it is C14's subject: here, accepted = not answered TOO_LARGE *)
+      if has_error c E_TOO_LARGE outs || flag_on cfg F_CUSTOM_B then [] else to_all rest (MCustomB ots p body)
   | RAction rid (Some a) ots =>
       if has_msg c outs (λ m, match m with MActionResp r' => r' =? rid | _ => false end)
       then to_all rest (MActionB ots a) else []
